@@ -27,7 +27,7 @@ import (
 
 func init() { checks["c06"] = checkC06 }
 
-var c06Events = []string{"write", "bigwrite", "shrink", "restart", "kill", "pause", "stall-shrink", "fshrink", "oom"}
+var c06Events = []string{"write", "bigwrite", "shrink", "restart", "kill", "pause", "stall-shrink", "fshrink", "oom", "refollow"}
 
 type c06Run struct {
 	x        *Exec
@@ -107,7 +107,7 @@ func checkC06(job *Job, res *Result) {
 	if d, ok := job.Params["depth"].(float64); ok {
 		depth = int(d)
 	}
-	inits := []string{"empty", "prefix", "unrelated", "emptied", "big-empty", "big-diverged", "aligned", "respvalues"}
+	inits := []string{"empty", "prefix", "unrelated", "emptied", "big-empty", "big-diverged", "aligned", "respvalues", "only-channels"}
 	if job.Tier == "thorough" {
 		inits = append(inits, "big-prefix", "big-unrelated")
 	}
@@ -233,6 +233,16 @@ func checkC06(job *Job, res *Result) {
 					c.Do("DROP", "gone")
 					c.Close()
 					f0.Stop()
+				case "only-channels":
+					// the follower's own past left a channel and a hook but not a single collection
+					f0 := x.Start("F", fdir, 9002, nil)
+					c := x.Dial(f0.Addr)
+					c.Do("SET", "gone", "g", "POINT", "5", "5")
+					c.Do("SETCHAN", "oldchan", "NEARBY", "gone", "FENCE", "POINT", "5", "5", "100")
+					c.Do("SETHOOK", "oldhook", "http://127.0.0.1:1/x", "NEARBY", "gone", "FENCE", "POINT", "5", "5", "100")
+					c.Do("DROP", "gone")
+					c.Close()
+					f0.Stop()
 				case "unrelated":
 					f0 := x.Start("F", fdir, 9002, nil)
 					c := x.Dial(f0.Addr)
@@ -339,6 +349,12 @@ func checkC06(job *Job, res *Result) {
 						r.write(false)
 						vsched.Sleep(int64(300 * stdtime.Millisecond))
 						vsched.Paused[r.F.Name] = false
+					case "refollow":
+						// the follower is told to follow no one and, right away, the same leader again
+						fc.Do("FOLLOW", "no", "one")
+						r.write(false)
+						fc.Do("FOLLOW", "127.0.0.1", "9001")
+						r.atConn = r.nWrites
 					case "oom":
 						// the follower is over its maxmemory limit while the leader writes, then recovers
 						// (the flag is what the frozen memory watcher would set)
